@@ -36,7 +36,9 @@ def lower_bound(meta, lib):
         # a wall-clock time that exists exactly once after 1902 has one UTC image: that is the bound; otherwise (gap, fold,
         # LMT era) the exact conversion is C07's business and a day of slack is left
         back = [x.replace(tzinfo=D.timezone.utc).astimezone(z).replace(tzinfo=None) for x in c]
-        if c[0] == c[1] and back[0] == ds and ds.year >= 1902:
+        # (the library reads the explicit transitions of the zone files, which end in 2037; what zoneinfo extrapolates
+        # beyond that from the POSIX rule string is outside C07's range, 1902..2037)
+        if c[0] == c[1] and back[0] == ds and 1902 <= ds.year <= 2037:
             return c[0]
         return min(c) - D.timedelta(hours=26)
     return ds
@@ -70,6 +72,20 @@ def kind_key(meta, kind):
     return "+".join(sorted(feats)) + "/" + kind
 
 
+def _gap_near(zone, a, b):
+    """does the zone's UTC offset jump forward within three hours of the two (UTC) instants?"""
+    z = zoneinfo.ZoneInfo(zone)
+    lo = min(a, b) - D.timedelta(hours=3)
+    prev = None
+    for k in range(0, 8 * 4 + 1):
+        t = (lo + D.timedelta(minutes=15 * k)).replace(tzinfo=D.timezone.utc).astimezone(z)
+        off = t.utcoffset()
+        if prev is not None and off > prev:
+            return True
+        prev = off
+    return False
+
+
 def _dt(x):
     return x if isinstance(x, D.datetime) else D.datetime.combine(x, D.time(0, 0, 0))
 
@@ -91,6 +107,11 @@ def check_stream(part, text, meta, got, ended, mon, lib, npop):
             # finding); the position of the pair says little, duplicates removed on the way shift the refill points
             reach = any(("SHIFT=" in t or "BYEASTER=" in t) for t in meta["rules"])
             kind = "not-increasing/cross-period" if reach else "not-increasing"
+            # a wall-clock time inside a spring-forward gap is placed like an explicit DATE-TIME (RFC 5545: offset from before
+            # the gap) and so coincides with a later, existing wall-clock time; the copies are merged when they meet in one
+            # cache fill and come out of order when a refill separates them (listed finding, same refill limitation)
+            if kind == "not-increasing" and meta["tzid"] and isinstance(a, D.datetime) and _gap_near(meta["tzid"], a, b):
+                kind = "not-increasing/dst-gap"
             fails.append((kind, "%s then %s (positions %d, %d)" % (a, b, i, i + 1)))
             break
     lb = lower_bound(meta, lib)
